@@ -207,8 +207,11 @@ func boundaryRequests(l int) []lab.RawRequest {
 				splits = append(splits, []int{n - 1, 1})
 			}
 			for _, parts := range splits {
-				out = append(out, lab.RawRequest{Method: "POST", Target: "/upload", Framing: fr, Body: payload(n, byte(l)), BodyLen: n, Parts: parts,
-					Header: []lab.KV{{K: "Host", V: "helios.test"}, {K: "Content-Type", V: "application/octet-stream"}}})
+				// plain, and carrying an Upgrade offer the backend does not take up (websocket with Connection: Upgrade, bare h2c)
+				for _, up := range [][]lab.KV{nil, upgradeHeaders[1], upgradeHeaders[3]} {
+					hdr := append([]lab.KV{{K: "Host", V: "helios.test"}, {K: "Content-Type", V: "application/octet-stream"}}, up...)
+					out = append(out, lab.RawRequest{Method: "POST", Target: "/upload", Framing: fr, Body: payload(n, byte(l)), BodyLen: n, Parts: parts, Header: hdr})
+				}
 			}
 		}
 	}
@@ -228,7 +231,7 @@ func judgeBoundary(c *boundaryCase, withStub, refStub *StubLab, withProxy, refPr
 
 func TestC14RequestBoundary(t *testing.T) {
 	limits := boundaryLimits()
-	sub := lab.Sub(boundarySub, fmt.Sprintf("complete enumeration: max_request_body L = 1..%d and 4095, 4096, 4097, 32768 x request body length {0, L-1, L, L+1, 3L} x {Content-Length, chunked} x {one write, split (at the limit when longer than L)} "+
+	sub := lab.Sub(boundarySub, fmt.Sprintf("complete enumeration: max_request_body L = 1..%d and 4095, 4096, 4097, 32768 x request body length {0, L-1, L, L+1, 3L} x {Content-Length, chunked} x {one write, split (at the limit when longer than L)} x request headers {plain, 'Connection: Upgrade' + 'Upgrade: websocket', bare 'Upgrade: h2c' (the backend does not switch protocols)} "+
 		"x terminal {stub handler, real balancer + raw backend}; POST through [size_limit] over a real connection; oracle R1, R2 (413 and backend not contacted), R3 (body arrives intact) and U (2-byte 200 response identical to the run without the plugin); "+
 		"non-trivial = length within +-1 of L; exhaustive for this finite grid (shards split it by limit)", lab.Scale(64, 256)))
 	sub.NontrivialFloor(0.50)
@@ -236,6 +239,7 @@ func TestC14RequestBoundary(t *testing.T) {
 	sub.Floor("req=limit+1", 0.15)
 	sub.Floor("declared-too-large", 0.15)
 	sub.Floor("chunked-too-large", 0.15)
+	sub.Floor("req-carries-upgrade", 0.50)
 	mkChain := func(l int) Chain { return Chain{L: int64(l), M: 0, Style: "yaml-int"} }
 	refPC, _ := mkChain(1).Plugins(false)
 	refStub, err := NewStubLab(refPC)
